@@ -582,6 +582,29 @@ func vc02Directed(c *vsmCtx, r0 round) *vc02Script {
 	return &vc02Script{c: c, r0: r0, events: []vsmEvent{c.voteEvent(true, v, rank, vsmMeta{}, nil), c.timeoutEvent(false, 5, false, r0)}}
 }
 
+// quorum of senders 1..7 for (r,p,s)
+func vc02Quorum(c *vsmCtx, r round, p period, s step) []uint64 {
+	var snds []uint64
+	var w uint64
+	for sn := uint64(1); sn <= 7 && w < s.threshold(c.proto); sn++ {
+		snds = append(snds, sn)
+		w += c.weight(sn, r, p, s)
+	}
+	return snds
+}
+
+// hypothesis-violating script (AgreementAttestOnce.script_redo on the real code): a next quorum for v1
+// moves the node to period 1 and the fast-recovery timer votes redo v1; a late-step quorum of period 0
+// for v2 then overwrites voteTrackerPeriod.Cached and the next fast-recovery vote is redo v2
+func vc02DirectedRedo(c *vsmCtx, r0 round) *vc02Script {
+	v1, v2 := c.newValue(r0, 0, 1), c.newValue(r0, 0, 2)
+	return &vc02Script{c: c, r0: r0, events: []vsmEvent{
+		c.bundleEvent(true, r0, 0, next, v1, vc02Quorum(c, r0, 0, next), nil, vsmMeta{}),
+		c.timeoutEvent(true, 3, false, r0), c.timeoutEvent(true, 4, false, r0),
+		c.bundleEvent(true, r0, 0, late, v2, vc02Quorum(c, r0, 0, late), nil, vsmMeta{}),
+		c.timeoutEvent(true, 5, false, r0)}}
+}
+
 func TestVerifC02(t *testing.T) {
 	defer vsmDevNull()()
 	nScripts := vEnvInt("VERIF_C02_N", 24)
@@ -606,6 +629,9 @@ func TestVerifC02(t *testing.T) {
 			run(vc02Directed(c, 7), vc02Plan{crashAt: 1, point: vc02D, second: second, tail: true})
 		}
 	}
+	// ---- directed: two redo values in one run when the delivered quorums are inconsistent (excused by the oracle)
+	run(vc02DirectedRedo(vsmNewCtx(protocol.ConsensusCurrentVersion, rnd), 9), vc02Plan{})
+	run(vc02DirectedRedo(vsmNewCtx(protocol.ConsensusCurrentVersion, rnd), 9), vc02Plan{crashAt: 1, point: vc02D})
 	// ---- generated scripts x enumerated crash points
 	versions := []protocol.ConsensusVersion{protocol.ConsensusCurrentVersion, protocol.ConsensusV38}
 	prefixes := []string{"happy", "latecred", "happy", "next", "", "latepayload", "happy", ""}
